@@ -128,7 +128,8 @@ def run_check(modname, tier, seed, only_case=None):
     nondeterministic = []
     confirmed = []
     seen_keys = set()
-    os.makedirs(os.path.join(VERIF, "replays", prop), exist_ok=True)
+    repdir = os.environ.get("MC_REPLAY_DIR") or os.path.join(VERIF, "replays")
+    os.makedirs(os.path.join(repdir, prop), exist_ok=True)
     for v in unknown:
         key = (v.get("what"), jdump(v.get("case")))
         if key in seen_keys:
@@ -142,7 +143,7 @@ def run_check(modname, tier, seed, only_case=None):
         if again is None or not any(a.get("what") == v.get("what") for a in again):
             nondeterministic.append((v, rr))
             continue
-        path = os.path.join(VERIF, "replays", prop, case_hash(prop, v["case"]) + ".json")
+        path = os.path.join(repdir, prop, case_hash(prop, v["case"]) + ".json")
         with open(path, "w") as f:
             json.dump({"property": prop, "check": modname, "case": v["case"], "what": v.get("what"),
                        "detail": v.get("detail")}, f, indent=1, default=repr, ensure_ascii=False)
@@ -186,8 +187,9 @@ def run_check(modname, tier, seed, only_case=None):
         "wall_s": round(wall, 2),
         "violations": len(confirmed),
     }
-    os.makedirs(os.path.join(VERIF, "evidence"), exist_ok=True)
-    evp = os.path.join(VERIF, "evidence", prop + ".json")
+    evdir = os.environ.get("MC_EVIDENCE_DIR") or os.path.join(VERIF, "evidence")
+    os.makedirs(evdir, exist_ok=True)
+    evp = os.path.join(evdir, prop + ".json")
     with open(evp, "w") as f:
         json.dump(ev, f, indent=1, default=repr, ensure_ascii=False)
     _validate(evp)
